@@ -53,6 +53,15 @@ func Apply(dir string, op Op) error {
 	if err != nil {
 		return fmt.Errorf("load: %w", err)
 	}
+	if op.Op == "seq" {
+		// several updates one after the other on one store object (no restart in between)
+		for i, o := range op.Burst {
+			if err := do(o); err != nil {
+				return fmt.Errorf("step %d (%s): %w", i+1, o.Op, err)
+			}
+		}
+		return nil
+	}
 	if op.Op != "burst" {
 		return do(op)
 	}
